@@ -36,36 +36,45 @@ type vclass struct {
 	Jtype       string `json:"jtype"`
 }
 
-type apiCase struct {
-	Srv string `json:"srv"`
-	Cb  struct {
-		Present bool   `json:"present"`
-		Name    string `json:"name"`
-	} `json:"cb"`
-	App struct {
-		Kind   string `json:"kind"`
+type cbParam struct {
+	Present bool   `json:"present"`
+	Name    string `json:"name"`
+}
+
+// what the application answers (an element of AppResponses)
+type appAnswer struct {
+	Kind   string `json:"kind"`
+	Code   string `json:"code"`
+	Status int    `json:"status"`
+	Msg    string `json:"msg"`
+	Val    vclass `json:"val"`
+}
+
+type expected struct {
+	Class  string `json:"class"`
+	Status int    `json:"status"`
+	Ctype  string `json:"ctype"`
+	Server string `json:"server"`
+	Wrap   string `json:"wrap"`
+	Body   struct {
+		T      string `json:"t"`
 		Code   string `json:"code"`
-		Status int    `json:"status"`
-		Msg    string `json:"msg"`
-		Val    vclass `json:"val"`
-	} `json:"app"`
-	Exp struct {
-		Class  string `json:"class"`
-		Status int    `json:"status"`
-		Ctype  string `json:"ctype"`
 		Server string `json:"server"`
-		Wrap   string `json:"wrap"`
-		Body   struct {
-			T      string `json:"t"`
-			Code   string `json:"code"`
-			Server string `json:"server"`
-		} `json:"body"`
-	} `json:"exp"`
-	Client struct {
-		Verdict string `json:"verdict"`
-		Code    string `json:"code"`
-		Judged  bool   `json:"judged"`
-	} `json:"client"`
+	} `json:"body"`
+}
+
+type clientVerdict struct {
+	Verdict string `json:"verdict"`
+	Code    string `json:"code"`
+	Judged  bool   `json:"judged"`
+}
+
+type apiCase struct {
+	Srv    string        `json:"srv"`
+	Cb     cbParam       `json:"cb"`
+	App    appAnswer     `json:"app"`
+	Exp    expected      `json:"exp"`
+	Client clientVerdict `json:"client"`
 }
 
 // ---- error implementations the application may hand to Error()
